@@ -28,6 +28,9 @@ TStep ==
 
 TSpec == TInit /\ [][TStep]_tvars
 
+\* self-test of Props!ClausesFor: the fast evaluation agrees with the full one at every step of the trace
+FastAgrees == l <= Len(TraceLog) => (TraceLog[l].ev = "Config" \/ Violated(obs, TraceLog[l]) = ViolatedFast(obs, TraceLog[l]))
+
 Save == TLCSet(2, viol) /\ TLCSet(1, l)
 Done == /\ TLCGet(1) = Len(TraceLog) + 1
         /\ JsonSerialize("viol.json", [lines |-> Len(TraceLog), viol |-> TLCGet(2)])
